@@ -72,12 +72,26 @@ def generate(master, index, tier):
     sched = W.gen_fault_sched(rng, kind, items, rng.random() < 0.3 or long_run)
     if kind == "serial":
         sched["seg"] = rng.choice(("full", "full", "full", "random", "small"))
+    encoding = rng.choice((0, 0, 0, 0, 0, 0, 1, 1, 1, 3, 5, 9)) if kind == "socket" else 0
+    chunkify = None
+    if encoding and rng.random() < 0.7:
+        # the peer really speaks chunked, but not always well
+        total = sum(len(it[1]) // 2 for it in items)
+        ncut = rng.choice((0, 1, 3, 8))
+        cuts = sorted({rng.randrange(1, total) for _ in range(ncut)}) if total > 1 else []
+        corrupt = []
+        for _ in range(rng.choice((0, 1, 1, 2))):
+            corrupt.append([rng.randrange(len(cuts) + 1), rng.choice(("size", "size", "size", "bigger", "smaller", "noterm", "lfonly")), rng.randrange(1, 1000)])
+        chunkify = {"cuts": cuts, "corrupt": corrupt, "final": rng.random() < 0.7}
+        if chunkify["corrupt"] or True:
+            sched = W.gen_fault_sched(rng, kind, [], rng.random() < 0.5)  # aims would be keyed on the un-encoded offsets
     return {
         "prop": PROP,
         "kind": kind,
         "bufsize": rng.choice((1, 2, 3, 5, 7, 64, 512, 4096)),
         "rawbuf": rng.choice((1, 8, 64, 8192)),
-        "encoding": rng.choice((0, 0, 0, 0, 0, 0, 0, 0, 1, 3, 5, 9)) if kind == "socket" else 0,
+        "encoding": encoding,
+        "chunkify": chunkify,
         "items": items,
         "driver": rng.choice(("iterate", "read", "read")),
         "max_none": rng.choice((0, 1, 3, 8)),
@@ -91,6 +105,41 @@ def generate(master, index, tier):
         },
         "sched": sched,
     }
+
+
+HOSTILE_SIZE_LINES = (
+    "ffffffffffffffffffff", "7fffffffffffffff", "8000000000000000", "ffffffff", "100000000", "-5", "-ffffffffffffffffffff",
+    "zz", "", " ", "0x10", "1_0", "+3", "1e3", "00000000000000000000000000000003", "\xff\xfe", "3;ext=1", "0",
+)
+
+
+def hostile_chunked(data, spec):
+    """the wire, chunk-encoded at the given cuts, with some size lines / terminators
+    corrupted: what a chunked-transfer peer that misbehaves (or a damaged line)
+    can deliver to a socket configured with encoding=chunked"""
+    cuts = [c for c in spec.get("cuts", []) if 0 < c < len(data)]
+    bodies = [data[a:b] for a, b in zip([0] + cuts, cuts + [len(data)]) if b > a]
+    out = bytearray()
+    corrupt = {c[0]: c for c in spec.get("corrupt", [])}
+    for i, b in enumerate(bodies):
+        c = corrupt.get(i)
+        size = b"%x" % len(b)
+        term = b"\r\n"
+        if c:
+            if c[1] == "size":
+                size = HOSTILE_SIZE_LINES[c[2] % len(HOSTILE_SIZE_LINES)].encode("latin-1")
+            elif c[1] == "bigger":
+                size = b"%x" % (len(b) + c[2])
+            elif c[1] == "smaller":
+                size = b"%x" % max(0, len(b) - c[2])
+            elif c[1] == "noterm":
+                term = b""
+            elif c[1] == "lfonly":
+                term = b"\n"
+        out += size + b"\r\n" + b + term
+    if spec.get("final", True):
+        out += b"0\r\n\r\n"
+    return bytes(out)
 
 
 def direct_calls(items, labelmsm, lib):
@@ -143,6 +192,8 @@ def execute(scn):
         return _exec_direct(scn)
     items = scn["items"]
     data = W.wire_of(items)
+    if scn.get("chunkify"):
+        data = hostile_chunked(data, scn["chunkify"])
     kind = scn["kind"]
     decider = W.make_decider(scn, kind)
     max_none = scn.get("max_none", 0)
@@ -199,6 +250,9 @@ def execute(scn):
     }
     if scn.get("encoding"):
         counters["socket_with_encoding"] = 1
+    if scn.get("chunkify"):
+        counters["socket_chunked_peer"] = 1
+        counters["socket_chunked_peer_corruptions"] = len(scn["chunkify"].get("corrupt", []))
     if st.link:
         for k, v in st.link.fired.items():
             counters["fault:" + k.split(":")[0]] = counters.get("fault:" + k.split(":")[0], 0) + v
@@ -239,7 +293,7 @@ def simplify(scn):
                     cand = dict(scn)
                     cand["items"] = items[:i] + [[it[0], wire.rtcm_frame(np_).hex(), it[2]]] + items[i + 1 :]
                     yield cand
-    for key, val in (("kind", "bytesio"), ("bufsize", 4096), ("driver", "iterate"), ("max_none", 0), ("encoding", 0)):
+    for key, val in (("kind", "bytesio"), ("bufsize", 4096), ("driver", "iterate"), ("max_none", 0)):
         if scn.get(key) != val:
             cand = dict(scn)
             cand[key] = val
@@ -249,6 +303,16 @@ def simplify(scn):
         if o.get(key) != val:
             cand = dict(scn)
             cand["opts"] = dict(o, **{key: val})
+            yield cand
+    ch = scn.get("chunkify")
+    if ch:
+        for i in range(len(ch.get("corrupt", []))):
+            cand = dict(scn)
+            cand["chunkify"] = dict(ch, corrupt=ch["corrupt"][:i] + ch["corrupt"][i + 1 :])
+            yield cand
+        for i in range(len(ch.get("cuts", []))):
+            cand = dict(scn)
+            cand["chunkify"] = dict(ch, cuts=ch["cuts"][:i] + ch["cuts"][i + 1 :])
             yield cand
     dec = scn.get("decisions") or []
     for i, d in enumerate(dec):
